@@ -235,6 +235,12 @@ def run_check(prop, tier, seed, replay_path=None):
     except Exception as e:
         print("infrastructure error in search: %r\n%s" % (e, traceback.format_exc()))
         return 2
+    sc = search.get("status_counts", {})
+    n_err = sc.get("oracle-error", 0) + sc.get("gen-error", 0)
+    if n_err and n_err * 10 > max(1, search.get("evaluations", 0)):
+        print("infrastructure error: %d of %d search cases crashed in the harness: %s" % (
+            n_err, search.get("evaluations", 0), json.dumps(search.get("errors", [])[:1])[:1500]))
+        return 2
     failures = search.get("failures", [])
     new_failures, known_hits = [], []
     for fl in failures:
